@@ -139,6 +139,11 @@ func (p *Plenc) CodecForTypeRegistry(registry plenccodec.CodecRegistry, typ refl
 				// Can probably support these if we don't allow missing entries
 				return nil, fmt.Errorf("slices of pointers to float32 & float64 are not supported")
 			}
+			if subc.Descriptor().ExplicitPresence {
+				// Every element is written at a fixed width, so there's no way
+				// to leave out an element that isn't present
+				return nil, fmt.Errorf("slices of fixed-width elements that can be absent (%s) are not supported", subt)
+			}
 			c = plenccodec.WTFixedSliceWrapper{BaseSliceWrapper: bs}
 		case plenccore.WTLength:
 			if p.ProtoCompatibleArrays || tag == "proto" {
